@@ -695,7 +695,7 @@ Scalar MASA::masa_eval_posterior_variance()
 template <typename Scalar>
 Scalar MASA::masa_eval_grad_t(Scalar x)
 {
-  return masa_master<Scalar>().get_ms().eval_g_u(x);
+  return masa_master<Scalar>().get_ms().eval_g_t(x);
 }
 
 template <typename Scalar>
